@@ -168,6 +168,7 @@ def nats (args : List String) : Option (List Nat) := args.mapM String.toNat?
 
 /-! ### iterator ops -/
 def parseScript (s : String) : Option (List Bool) :=
+  if s = "-" then some [] else
   s.toList.mapM (fun c => if c = 'f' then some false else if c = 'b' then some true else none)
 
 def fmtYield (proj : String) (y : Option (K × V) × Nat) : String :=
@@ -440,6 +441,7 @@ def stepWT (c : WTinyLfu K V) (kh : K → UInt64) (op : String) (a : List Nat) :
   | "len", [] => done (toString c.len) c []
   | "cap", [] => done (toString c.cap) c []
   | "isempty", [] => done (fmtBool c.isEmpty) c []
+  | "debug", [] => done "()" c []
   | "windowlen", [] => done (toString c.window.len) c []
   | "windowcap", [] => done (toString c.window.cap) c []
   | "mainlen", [] => done (toString c.main.len) c []
@@ -504,9 +506,11 @@ def stepTiny (t : TinyLfu) (kh : K → UInt64) (op : String) (sargs : List Strin
     | [c, x, y] =>
       match parseCmp c, x.toNat?, y.toNat? with
       | some c, some x, some y =>
-        match t.compare c (kh x) (kh y) with
-        | .error f => .fault f
-        | .ok b => done (fmtBool b) t
+        match t.compare c (kh x) (kh y), t.estimate (kh x), t.estimate (kh y) with
+        | .ok b, .ok ea, .ok eb => done s!"{fmtBool b} {ea} {eb}" t
+        | .error f, _, _ => .fault f
+        | _, .error f, _ => .fault f
+        | _, _, .error f => .fault f
       | _, _, _ => .bad "cmp args"
     | _ => .bad "cmp args"
   | _, _ => .bad s!"tinylfu: unknown op {op}"
